@@ -1,0 +1,18 @@
+//go:build verif
+
+// Contracts for package encryption, checked by /verif/gocv (comment-only file).
+package encryption
+
+// RawHash: SHA3-256 of the bytes of data. The body (golang.org/x/crypto/sha3) is outside the
+// verifier's reach; the contract is assumed (A-hash). It panics on any other dynamic type.
+//@ func RawHash returns (h)
+//@   trusted
+//@   requires data is []byte || data is string || data is HashBytes      #known-type
+//@   assigns nothing
+//@   ensures len(h) == 32 && cap(h) >= 32 && fresh(h)
+
+//@ func Hash returns (s)
+//@   trusted
+//@   requires data is []byte || data is string || data is HashBytes      #known-type
+//@   assigns nothing
+//@   ensures len(s) == 64
